@@ -460,4 +460,20 @@ theorem tr_inequal (j : Nat) (g : Env) (H : Heap) (am ab : Nat) (mo bo : MapObj)
                 · simp [hc, hca] at s4
                   obtain ⟨env', he⟩ := proj_elim s4; rw [he]; simp [ineqResult, hc, hca]
 
+/-- Non-vacuity, and the documented example: bindings `{"?<n": 10}`, variable `?<n`, message value 3 —
+    the translated `inequal` reports an inequality that holds and stores `?n := 3` in the bindings map. -/
+example (j : Nat) (g : Env) :
+    callFn (j + 76) matchProg g ".inequal" (.ref 0) [.f64 3, .ref 1, .str "?<n"]
+      [{ ty := "Matcher", kvs := [(.str "Inequalities", .bool true)] }, { ty := "Bindings", kvs := [(.str "?<n", .f64 10)] }] =
+    .ok ([.bool true, .slice [.ref 1], .nil],
+      [{ ty := "Matcher", kvs := [(.str "Inequalities", .bool true)] },
+       { ty := "Bindings", kvs := [(.str "?<n", .f64 10), (.str "?n", .f64 3)] }]) := by
+  have h := tr_inequal j g
+    [{ ty := "Matcher", kvs := [(.str "Inequalities", .bool true)] }, { ty := "Bindings", kvs := [(.str "?<n", .f64 10)] }]
+    0 1 { ty := "Matcher", kvs := [(.str "Inequalities", .bool true)] } { ty := "Bindings", kvs := [(.str "?<n", .f64 10)] }
+    (.f64 3) "?<n" rfl rfl rfl (by decide)
+  rw [h]
+  have h3 : (3 : Rat) < 10 := by decide
+  simp [ineqResult, inequalG, mlookup, keyEq, asNumG, ineqOf, IneqOp.rel, minsert, heapSet, h3]
+
 end Sheens.TrIneq
